@@ -53,7 +53,7 @@ theorem eval_call_proc (f : Nat) (xc : X.Ctx) (g : String) (args : List X.Expr) 
 theorem exec_callExpr {G : GCtx} (ok : G.OK) (fuel : Nat) (hcs : ∀ k, k < fuel → CallSpec G k)
     {pi : PInfo} (hpi : pi ∈ G.procs) (sp dep : Nat) (hi : Nat → Word) (hlo : G.lo ≤ sp) (hspv : sp + G.S pi + pi.po + pi.p.formals.length ≤ G.spv + 1)
     (hstack : G.spv ≤ sp + dep * G.smax) (g : String) (args : List X.Expr) (hg : g ∈ G.pnames)
-    (hp : ∀ e ∈ args, pureE e = true) (σ : X.St)
+    (hA : ∀ f, f < fuel → ArgsOK G pi sp dep hi f args) (σ : X.St)
     (gs : GS) (code : Code) (gs' : GS) (i : Nat) (a b : Word) (mem : Mem)
     (hgen : genExpr (G.ctxOf pi) (optExpr (annotate G.rho (.call g args))) .A gs = .ok (code, gs'))
     (hat : At G.env.ds i (lowerCode G.cg code)) (hr : Rep (KOf G pi sp dep hi) σ mem)
@@ -82,38 +82,44 @@ theorem exec_callExpr {G : GCtx} (ok : G.OK) (fuel : Nat) (hcs : ∀ k, k < fuel
         by_cases ho : (!X.orderOk G.xc st args) = true
         · rw [if_pos ho]; trivial
         · rw [if_neg ho]
+          rw [annot_call] at hgen
+          obtain ⟨kind, hk, hseq⟩ := genExpr_call_inv _ _ _ _ _ _ _ _ hgen
+          obtain ⟨_, hk'⟩ := exprCallKind_inv _ _ _ _ _ _ hk
+          rcases hk' with ⟨hne, _⟩ | ⟨_, sym, hsym, hkind⟩
+          · exact absurd rfl hne
+          obtain ⟨sym', hsym', hty⟩ := ok.callee_sym pi hpi pj hpj
+          rw [hname] at hsym'
+          have : sym = sym' := by
+            have h1 : (G.ctxOf pi).tbl.lookup (G.ctxOf pi).scope g = .ok sym := hsym
+            have h2 : (G.ctxOf pi).tbl.lookup (G.ctxOf pi).scope g = .ok sym' := hsym'
+            rw [h1] at h2
+            exact Except.ok.inj h2
+          subst this
+          have hkk : kind = pj.callKind := by
+            rw [hkind, if_pos (hty.mpr hf)]
+            unfold PInfo.callKind
+            rw [hf, hname]
+            rfl
+          rw [hkk] at hseq
+          have hcall := (hA f (Nat.lt_succ_self _)).call (fun k hk => hcs k (Nat.lt_succ_of_le hk)) pj hpj st
+            gs code gs' i a b mem hseq hat hrs hsz hnl hci
           cases hev : X.evalArgs f G.xc args st with
           | undef w => simp only [Res.bind]
-          | exit c s => exact absurd hev (evalArgs_pure_no_exit G.xc args f st c s hp)
-          | ok vs s =>
+          | exit c s =>
+            rw [hev] at hcall
             simp only [Res.bind]
+            obtain ⟨c', hst, hex⟩ := hcall
+            rw [hs.2.2.2.1] at hst
+            exact ⟨c', hst, hex⟩
+          | ok vs s =>
+            rw [hev] at hcall
+            simp only [Res.bind] at hcall ⊢
             cases hcu : X.callUser f G.xc pj.p vs s with
             | undef w => trivial
             | exit cd s' =>
               simp only
-              rw [annot_call] at hgen
-              obtain ⟨kind, hk, hseq⟩ := genExpr_call_inv _ _ _ _ _ _ _ _ hgen
-              obtain ⟨_, hk'⟩ := exprCallKind_inv _ _ _ _ _ _ hk
-              rcases hk' with ⟨hne, _⟩ | ⟨_, sym, hsym, hkind⟩
-              · exact absurd rfl hne
-              obtain ⟨sym', hsym', hty⟩ := ok.callee_sym pi hpi pj hpj
-              rw [hname] at hsym'
-              have : sym = sym' := by
-                have h1 : (G.ctxOf pi).tbl.lookup (G.ctxOf pi).scope g = .ok sym := hsym
-                have h2 : (G.ctxOf pi).tbl.lookup (G.ctxOf pi).scope g = .ok sym' := hsym'
-                rw [h1] at h2
-                exact Except.ok.inj h2
-              subst this
-              have hkk : kind = pj.callKind := by
-                rw [hkind, if_pos (hty.mpr hf)]
-                unfold PInfo.callKind
-                rw [hf, hname]
-                rfl
-              rw [hkk] at hseq
-              have := exec_usercall ok f (hcs f (Nat.lt_succ_self _)) hpi hpj sp dep hi hlo hspv hstack args f st s vs hp hev
-                gs code gs' i a b mem hseq hat hrs hsz hnl hci
-              rw [hcu] at this
-              obtain ⟨c, hst, hex⟩ := this
+              rw [hcu] at hcall
+              obtain ⟨c, hst, hex⟩ := hcall
               rw [hs.2.2.2.1] at hst
               exact ⟨c, hst, hex⟩
             | ok r s' =>
@@ -122,29 +128,8 @@ theorem exec_callExpr {G : GCtx} (ok : G.OK) (fuel : Nat) (hcs : ∀ k, k < fuel
               | none => trivial
               | some w =>
                 simp only
-                rw [annot_call] at hgen
-                obtain ⟨kind, hk, hseq⟩ := genExpr_call_inv _ _ _ _ _ _ _ _ hgen
-                obtain ⟨_, hk'⟩ := exprCallKind_inv _ _ _ _ _ _ hk
-                rcases hk' with ⟨hne, _⟩ | ⟨_, sym, hsym, hkind⟩
-                · exact absurd rfl hne
-                obtain ⟨sym', hsym', hty⟩ := ok.callee_sym pi hpi pj hpj
-                rw [hname] at hsym'
-                have : sym = sym' := by
-                  have h1 : (G.ctxOf pi).tbl.lookup (G.ctxOf pi).scope g = .ok sym := hsym
-                  have h2 : (G.ctxOf pi).tbl.lookup (G.ctxOf pi).scope g = .ok sym' := hsym'
-                  rw [h1] at h2
-                  exact Except.ok.inj h2
-                subst this
-                have hkk : kind = pj.callKind := by
-                  rw [hkind, if_pos (hty.mpr hf)]
-                  unfold PInfo.callKind
-                  rw [hf, hname]
-                  rfl
-                rw [hkk] at hseq
-                have := exec_usercall ok f (hcs f (Nat.lt_succ_self _)) hpi hpj sp dep hi hlo hspv hstack args f st s vs hp hev
-                  gs code gs' i a b mem hseq hat hrs hsz hnl hci
-                rw [hcu] at this
-                obtain ⟨a', b', mem', hst, rep', hres', _⟩ := this
+                rw [hcu] at hcall
+                obtain ⟨a', b', mem', hst, rep', hres'⟩ := hcall
                 have := hres' hf w rfl
                 subst this
                 rw [hs.2.2.2.1] at hst
@@ -168,11 +153,6 @@ def ExecE (K : PCtx) (e' : AExpr) (st : X.St) (r : Res Val) : Prop :=
     OutE K (cfg i a b mem) st.io r (i + (K.low code).length)
 
 /-! ### Calls of pure functions in operands -/
-
-theorem noLoc_of_rep {G : GCtx} {pi : PInfo} {sp dep : Nat} {hi : Nat → Word} {σ : X.St} {mem : Mem}
-    (rep : Rep (KOf G pi sp dep hi) σ mem) : NoLoc G.pnames σ := by
-  intro g hg
-  exact rep.gvis g (List.mem_append_right _ (by simpa using hg))
 
 /-- The call of a pure function, as an operand: the state it leaves differs from the one before
     in the step counter and the call log only. -/
@@ -437,7 +417,7 @@ theorem exec_call_func (f : Nat) (xc : X.Ctx) (g : String) (args : List X.Expr) 
 theorem execS_callStmt {G : GCtx} (ok : G.OK) (fuel : Nat) (hcs : ∀ k, k < fuel → CallSpec G k)
     {pi : PInfo} (hpi : pi ∈ G.procs) (sp dep : Nat) (hi : Nat → Word) (hlo : G.lo ≤ sp) (hspv : sp + G.S pi + pi.po + pi.p.formals.length ≤ G.spv + 1)
     (hstack : G.spv ≤ sp + dep * G.smax) (g : String) (args : List X.Expr) (hg : g ∈ G.pnames)
-    (hp : ∀ e ∈ args, pureE e = true) (σ : X.St) :
+    (hA : ∀ f, f < fuel → ArgsOK G pi sp dep hi f args) (σ : X.St) :
     ExecS (KOf G pi sp dep hi) (G.iEpi pi) (optStmt (annotS G.rho (.call g args))) σ
       (X.exec fuel G.xc (.call g args) σ) := by
   intro gs code gs' i a b mem hgen hat hr hsz hnl hci
@@ -466,34 +446,245 @@ theorem execS_callStmt {G : GCtx} (ok : G.OK) (fuel : Nat) (hcs : ∀ k, k < fue
         by_cases ho : (!X.orderOk G.xc st args) = true
         · rw [if_pos ho]; trivial
         · rw [if_neg ho]
+          have hkk : CallKind.proc g = pj.callKind := by
+            unfold PInfo.callKind
+            rw [hf, hname]
+            rfl
+          rw [hkk] at hgen
+          have hcall := (hA f (Nat.lt_succ_self _)).call (fun k hk => hcs k (Nat.lt_succ_of_le hk)) pj hpj st
+            gs code gs' i a b mem hgen hat hrs hsz hnl hci
           cases hev : X.evalArgs f G.xc args st with
           | undef w => simp only [Res.bind]; trivial
-          | exit c s => exact absurd hev (evalArgs_pure_no_exit G.xc args f st c s hp)
-          | ok vs s =>
+          | exit c s =>
+            rw [hev] at hcall
             simp only [Res.bind]
-            have hkk : CallKind.proc g = pj.callKind := by
-              unfold PInfo.callKind
-              rw [hf, hname]
-              rfl
-            rw [hkk] at hgen
+            obtain ⟨c', hst, hex⟩ := hcall
+            rw [hs.2.2.2.1] at hst
+            exact ⟨c', hst, hex⟩
+          | ok vs s =>
+            rw [hev] at hcall
+            simp only [Res.bind] at hcall ⊢
             cases hcu : X.callUser f G.xc pj.p vs s with
             | undef w => trivial
             | exit cd s' =>
               simp only
-              have := exec_usercall ok f (hcs f (Nat.lt_succ_self _)) hpi hpj sp dep hi hlo hspv hstack args f st s vs hp hev
-                gs code gs' i a b mem hgen hat hrs hsz hnl hci
-              rw [hcu] at this
-              obtain ⟨c, hst, hex⟩ := this
+              rw [hcu] at hcall
+              obtain ⟨c, hst, hex⟩ := hcall
               rw [hs.2.2.2.1] at hst
               exact ⟨c, hst, hex⟩
             | ok r s' =>
               simp only
-              have := exec_usercall ok f (hcs f (Nat.lt_succ_self _)) hpi hpj sp dep hi hlo hspv hstack args f st s vs hp hev
-                gs code gs' i a b mem hgen hat hrs hsz hnl hci
-              rw [hcu] at this
-              obtain ⟨a', b', mem', hst, rep', _, _⟩ := this
+              rw [hcu] at hcall
+              obtain ⟨a', b', mem', hst, rep', _⟩ := hcall
               rw [hs.2.2.2.1] at hst
               exact ⟨a', b', mem', hst, rep'⟩
+
+theorem evalArgs_cons_eq (fuel : Nat) (xc : X.Ctx) (e : X.Expr) (es : List X.Expr) (st : X.St) :
+    X.evalArgs (fuel + 1) xc (e :: es) st =
+      (X.eval fuel xc e st).bind fun v s => (X.evalArgs fuel xc es s).bind fun vs s' => .ok (v :: vs) s' := by
+  conv => lhs; unfold X.evalArgs
+
+/-- **A call as the first actual, all other actuals constants**: the callee of the inner call
+    may have any effect; the constants do not look at the state. -/
+theorem argsOK_first {G : GCtx} (ok : G.OK) {pi : PInfo} (hpi : pi ∈ G.procs) (sp dep : Nat)
+    (hi : Nat → Word) (hlo : G.lo ≤ sp) (hspv : sp + G.S pi + pi.po + pi.p.formals.length ≤ G.spv + 1)
+    (hstack : G.spv ≤ sp + dep * G.smax) (F : Nat) (hcs : ∀ k, k < F → CallSpec G k)
+    (g : String) (args' post : List X.Expr) (hg : g ∈ G.pnames) (hp' : ∀ e ∈ args', pureE e = true)
+    (hpost : ∀ e ∈ post, isConstL G.rho e = true) :
+    ∀ f, f < F → ArgsOK G pi sp dep hi f (.call g args' :: post) := by
+  intro f hf
+  refine ⟨fun hcs' pj hpj st gs code gs' i a b mem hgen hat hr hsz hnl hci => ?_⟩
+  have wf := ok.wfs pi hpi sp dep hi hlo hspv
+  cases f with
+  | zero => rw [evalArgs_zero]; trivial
+  | succ f0 =>
+  rw [evalArgs_cons_eq]
+  -- the shape of the code
+  obtain ⟨c1, gs1, c2, gs2, h1, h2, hcode, hgs'⟩ := callSeq_inv _ _ _ _ _ _ _ _ hgen
+  have hargs : optArgsOf G.rho (.call g args' :: post) = optExpr (annotate G.rho (.call g args')) :: optArgsOf G.rho post := by
+    simp [optArgsOf]
+  have hcc : containsCall (optExpr (annotate G.rho (.call g args'))) = true := by rw [annot_call]; rfl
+  have hpostnc : ∀ x ∈ optArgsOf G.rho post, containsCall x = false :=
+    optArgsOf_noCall G.rho post (fun e he => constL_pure G.rho e (hpost e he))
+  have hcnt : countCalls (optArgsOf G.rho (.call g args' :: post)) = 1 := by
+    rw [hargs]
+    simp only [countCalls, hcc, if_true]
+    rw [(genCallActuals_noCall (G.ctxOf pi) _ gs hpostnc).2]
+  have hlen : (optArgsOf G.rho (.call g args' :: post)).length = post.length + 1 := by simp [optArgsOf]
+  rw [hcnt] at h2
+  rw [hargs] at h1
+  obtain ⟨cc, g1, cs, hgc, hgrest, hc1⟩ : ∃ cc g1 cs,
+      genExpr (G.ctxOf pi) (optExpr (annotate G.rho (.call g args'))) .A { gs with size := gs.offset } = .ok (cc, g1) ∧
+      genCallActuals (G.ctxOf pi) (optArgsOf G.rho post)
+        { g1 with offset := g1.offset + 1, size := max g1.size (g1.offset + 1) } = .ok (cs, gs1) ∧
+      c1 = cc ++ [iLDBM SP_OFFSET, IDir.fb FbKind.stai (G.ctxOf pi).frame (-(g1.offset : Int))] ++ cs := by
+    rcases genCallActuals_cons_inv _ _ _ _ _ _ h1 with ⟨_, cc, g1, cs, h⟩ | ⟨hn, _⟩
+    · exact ⟨cc, g1, cs, h⟩
+    · rw [hcc] at hn; simp at hn
+  obtain ⟨hcs0, _⟩ := genCallActuals_noCall (G.ctxOf pi) (optArgsOf G.rho post)
+    { g1 with offset := g1.offset + 1, size := max g1.size (g1.offset + 1) } hpostnc
+  rw [hcs0] at hgrest
+  simp only [Except.ok.injEq, Prod.mk.injEq] at hgrest
+  obtain ⟨hcse, hgs1⟩ := hgrest
+  subst hcse
+  obtain ⟨e1o, e1s, _, e1c⟩ := genExpr_eff _ _ _ _ _ _ hgc
+  simp only at e1o e1s e1c
+  rw [callKind_po] at h2
+  simp only [bumpN] at h2
+  obtain ⟨e2o, e2s, _, e2c⟩ := loadActuals_eff _ _ _ _ _ _ _ h2
+  rw [← hgs1] at e2o e2s e2c
+  simp only at e2o e2s e2c
+  subst hgs'
+  simp only [callKind_po, hlen] at hsz hci
+  subst hcode; subst hc1
+  simp only [lowerCode_append, List.append_assoc, List.append_nil] at hat ⊢
+  have hpo := po_pos pj
+  have hb : gs2.size + (post.length + 1 + pj.po) ≤ G.S pi := Nat.le_trans (Nat.le_max_right _ _) hsz
+  have hci2 : ConstsIn (KOf G pi sp dep hi) gs2 := hci
+  have hcig1 : ConstsIn (KOf G pi sp dep hi) g1 := fun x hx => hci2 x (e2c x hx)
+  have hl2 : lowerCode G.cg [iLDBM SP_OFFSET, IDir.fb FbKind.stai (G.ctxOf pi).frame (-(g1.offset : Int))]
+      = [.imm 0x1 1, .imm 0x8 ((G.S pi : Int) - 1 + -(g1.offset : Int))] := rfl
+  rw [hl2] at hat ⊢
+  -- the inner call
+  have hE := exec_callExpr ok f0 (fun k hk => hcs k (by omega)) hpi sp dep hi hlo hspv hstack g args' hg
+    (fun f' _ => argsOK_pure ok hpi sp dep hi hlo hspv hstack f' args' hp') st { gs with size := gs.offset } cc g1 i a b mem hgc
+    hat.left hr (by omega) hnl hcig1
+  cases heval : X.eval f0 G.xc (.call g args') st with
+  | undef w => simp only [Res.bind]
+  | exit cd s1 =>
+    rw [heval] at hE
+    simp only [Res.bind]
+    exact hE
+  | ok v s1 =>
+    rw [heval] at hE
+    simp only [Res.bind]
+    cases v with
+    | arr r => exact (eval_call_int G.xc f0 g args' st s1 r heval).elim
+    | int w =>
+    simp only at hE
+    obtain ⟨b1, mem1, st1, rep1⟩ := hE
+    -- park the value
+    have hoff : g1.offset < G.S pi := by omega
+    have hld := hat.right.left.get 0 _ rfl
+    have hst := hat.right.left.get 1 _ rfl
+    simp only [Nat.add_zero] at hld hst
+    have sA := Step.ldbm (env := G.env) (cfg (i + (lowerCode G.cg cc).length) w b1 mem1) s1.io 1 _ hld (ld_one mem1)
+    have hslot : (((KOf G pi sp dep hi).slot g1.offset : Nat) : Int) = (sp : Int) + (G.S pi : Int) - 1 + (-(g1.offset : Int)) := by
+      show ((sp + G.S pi - 1 - g1.offset : Nat) : Int) = _
+      omega
+    have hadr := slot_addr sp (G.S pi) (-(g1.offset : Int)) ((KOf G pi sp dep hi).slot g1.offset) hslot
+    obtain ⟨hsl1, hsl2⟩ := wf.slot_ok g1.offset hoff
+    have hsto : IAm.store G.env mem1 (mem1.read 1 + IAm.W ((G.S pi : Int) - 1 + -(g1.offset : Int))) w
+        = some (mem1.write ((KOf G pi sp dep hi).slot g1.offset) w) := by
+      rw [rep1.sp]
+      show IAm.store G.env mem1 (BitVec.ofNat 32 sp + _) w = _
+      rw [hadr]; exact store_ofNat _ _ _ _ hsl1 hsl2
+    have hne1 : (mem1.read 1 + IAm.W ((G.S pi : Int) - 1 + -(g1.offset : Int))).toNat ≠ 1 := by
+      rw [rep1.sp]
+      show (BitVec.ofNat 32 sp + _).toNat ≠ 1
+      rw [hadr]
+      exact ofNat_toNat_ne_one _ (by have := wf.sp_ge; show 2 ≤ sp + G.S pi - 1 - g1.offset; have : 2 ≤ sp := wf.sp_ge; omega) hsl1
+    have sB := Step.stai (env := G.env) (cfg (i + (lowerCode G.cg cc).length + 1) w (mem1.read 1) mem1) s1.io _ _ hst hsto hne1
+    have frm2 : Frm (KOf G pi sp dep hi) g1.offset (g1.offset + 1) mem1 (mem1.write ((KOf G pi sp dep hi).slot g1.offset) w) := by
+      intro ad had
+      rw [Mem.read_write_other]
+      exact fun e => had g1.offset (Nat.le_refl _) (by omega) e.symm
+    have rep2 := rep1.frame wf.toWF frm2 (by show pi.p.locals.length ≤ g1.offset; omega) (by show g1.offset + 1 ≤ G.S pi; omega)
+    -- the constants
+    cases hpe : X.evalArgs f0 G.xc post s1 with
+    | undef w' => simp only [Res.bind]
+    | exit c s => exact absurd hpe (evalArgs_pure_no_exit G.xc post f0 s1 c s (fun e he => constL_pure G.rho e (hpost e he)))
+    | ok vs s =>
+      simp only [Res.bind]
+      obtain ⟨hss, hlv, hokv, hspec⟩ := constLs_specs (KOf G pi sp dep hi) wf.toWF post f0 s1 s vs hpost rep2.valsOk hpe
+      have hload : LoadSpec (KOf G pi sp dep hi) s1 (optArgsOf G.rho (.call g args' :: post))
+          ((Val.int w :: vs).map (wordOf G.abase)) := by
+        rw [hargs]
+        simp only [List.map_cons, LoadSpec]
+        exact ⟨fun h => by rw [hcc] at h; simp at h, hspec s1⟩
+      have hsv : SavedOk (KOf G pi sp dep hi) (mem1.write ((KOf G pi sp dep hi).slot g1.offset) w)
+          (optArgsOf G.rho (.call g args' :: post)) ((Val.int w :: vs).map (wordOf G.abase)) gs.offset := by
+        rw [hargs]
+        simp only [List.map_cons]
+        unfold SavedOk
+        rw [if_pos hcc]
+        refine ⟨?_, savedOk_noCall _ _ _ _ _ hpostnc⟩
+        rw [← e1o]
+        exact Mem.read_write_same _ _ _ hsl1
+      have hlenW : (optArgsOf G.rho (.call g args' :: post)).length = ((Val.int w :: vs).map (wordOf G.abase)).length := by
+        simp [optArgsOf, hlv]
+      obtain ⟨a3, b3, mem3, st3, rep3, hvals, _, _⟩ := exec_loadItems (KOf G pi sp dep hi) wf.toWF s1 _ _ hlenW hload
+        pj.po gs.offset _ c2 gs2 (i + (lowerCode G.cg cc).length + 1 + 1) w (mem1.read 1)
+        (mem1.write ((KOf G pi sp dep hi).slot g1.offset) w) h2
+        (by have := hat.right.right.left; show At G.env.ds _ (lowerCode G.cg c2); simpa [Nat.add_assoc] using this) rep2 hsv
+        (by rw [hcnt]; exact Nat.le_refl _)
+        (by show gs2.size + (pj.po + (optArgsOf G.rho (.call g args' :: post)).length) ≤ G.S pi; rw [hlen]; omega)
+        (by show pi.p.locals.length ≤ gs.offset + 1; omega)
+        (by simp only; omega) hci2
+      have rep3s : Rep (KOf G pi sp dep hi) s mem3 := rep3.same hss
+      have hio : s.io = s1.io := hss.2.2.2.1
+      have hct := exec_calltail ok (f0 + 1) (hcs' (f0 + 1) (Nat.le_refl _)) hpi hpj sp dep hi hlo hspv hstack s (Val.int w :: vs)
+        (fun x hx => by
+          rcases List.mem_cons.mp hx with rfl | hx
+          · rfl
+          · exact hokv x hx)
+        gs2.labelCount gs.offset
+        (i + (lowerCode G.cg cc).length + 1 + 1 + (lowerCode G.cg c2).length) a3 b3 mem3
+        (by have := hat.right.right.right; simpa [Nat.add_assoc] using this) rep3s
+        (fun k hk => by
+          have := hvals k (by simpa using hk)
+          rw [getElem_map_wordOf] at this
+          exact this)
+        (by simp only [List.length_cons]; omega) (by omega) (by omega)
+      have hpre : Steps G.env (cfg i a b mem) st.io
+          (cfg (i + (lowerCode G.cg cc).length + 1 + 1 + (lowerCode G.cg c2).length) a3 b3 mem3) s1.io :=
+        st1.trans (Steps.step _ _ _ _ _ _ sA (Steps.step _ _ _ _ _ _ sB st3))
+      cases hx : X.callUser (f0 + 1) G.xc pj.p (Val.int w :: vs) s with
+      | undef w' => trivial
+      | exit cd s' =>
+        rw [hx] at hct
+        obtain ⟨c, hs, he⟩ := hct
+        rw [hio] at hs
+        exact ⟨c, hpre.trans hs, he⟩
+      | ok res s' =>
+        rw [hx] at hct
+        obtain ⟨a', b', mem', hs, rep', hres, _⟩ := hct
+        rw [hio] at hs
+        refine ⟨a', b', mem', ?_, rep', hres⟩
+        have : i + ((lowerCode G.cg cc).length + ([Dir.imm 1 1, Dir.imm 8 ((G.S pi : Int) - 1 + -(g1.offset : Int))].length +
+            ((lowerCode G.cg c2).length + (lowerCode G.cg (callTail pj.callKind gs2.labelCount)).length)))
+            = i + (lowerCode G.cg cc).length + 1 + 1 + (lowerCode G.cg c2).length + (lowerCode G.cg (callTail pj.callKind gs2.labelCount)).length := by
+          simp only [List.length_cons, List.length_nil]; omega
+        simp only [List.length_append]
+        rw [this]
+        exact hpre.trans hs
+
+theorem callE_inv (ps : List String) (e : X.Expr) (h : callE ps e = true) :
+    ∃ g args, e = .call g args ∧ g ∈ ps ∧ ∀ a ∈ args, pureE a = true := by
+  cases e <;> simp [callE] at h
+  rename_i g args
+  exact ⟨g, args, rfl, h.1, h.2⟩
+
+/-- The actuals of a call of the class, at every fuel below `F`. -/
+theorem argsOK_5 {G : GCtx} (ok : G.OK) {pi : PInfo} (hpi : pi ∈ G.procs) (sp dep : Nat)
+    (hi : Nat → Word) (hlo : G.lo ≤ sp) (hspv : sp + G.S pi + pi.po + pi.p.formals.length ≤ G.spv + 1)
+    (hstack : G.spv ≤ sp + dep * G.smax) (F : Nat) (hcs : ∀ k, k < F → CallSpec G k)
+    (args : List X.Expr) (h : argsOk5 G.pk G.pnames G.xc.impure G.rho args = true) :
+    ∀ f, f < F → ArgsOK G pi sp dep hi f args := by
+  intro f hf
+  simp only [argsOk5, Bool.or_eq_true, Bool.and_eq_true, List.all_eq_true] at h
+  rcases h with (hp | ⟨hpk, hpp⟩) | hfc
+  rotate_left 2
+  · cases args with
+    | nil => simp [firstCallArgs] at hfc
+    | cons a rest =>
+      simp only [firstCallArgs, Bool.and_eq_true, List.all_eq_true] at hfc
+      obtain ⟨g, args', rfl, hg, hargs'⟩ := callE_inv _ _ hfc.1
+      exact argsOK_first ok hpi sp dep hi hlo hspv hstack F hcs g args' rest hg hargs' hfc.2 f hf
+  · exact argsOK_pure ok hpi sp dep hi hlo hspv hstack f args hp
+  · exact argsOK_pp ok hpi sp dep hi hlo hspv hstack (ok.pure_ok hpk) f
+      (fun k hk => callLeaf_of_spec ok (ok.pure_ok hpk) hpi sp dep hi hlo hspv hstack k (fun j hj => hcs j (by omega)))
+      args hpp
 
 /-! ### The induction -/
 
@@ -502,9 +693,9 @@ def StmtLSpec (G : GCtx) (fuel : Nat) : Prop :=
     ∀ ss σ, okS5L G.pk G.pnames G.xc.impure G.rho ss = true →
       ExecSL (KOf G pi sp dep hi) (G.iEpi pi) (optStmts (annotSL G.rho ss)) σ (X.execSeq fuel G.xc ss σ)
 
-theorem callE_inv (ps : List String) (e : X.Expr) (h : callE ps e = true) :
-    ∃ g args, e = .call g args ∧ g ∈ ps ∧ ∀ a ∈ args, pureE a = true := by
-  cases e <;> simp [callE] at h
+theorem callE5_inv (pk : Bool) (ps imp : List String) (ρ : String → Option Word) (e : X.Expr) (h : callE5 pk ps imp ρ e = true) :
+    ∃ g args, e = .call g args ∧ g ∈ ps ∧ argsOk5 pk ps imp ρ args = true := by
+  cases e <;> simp [callE5] at h
   rename_i g args
   exact ⟨g, args, rfl, h.1, h.2⟩
 
@@ -547,10 +738,11 @@ theorem all_correct {G : GCtx} (ok : G.OK) : ∀ fuel, StmtSpec G fuel ∧ StmtL
             intro st _
             exact execE_pp ok (ok.pure_ok hpk) hpi sp dep hi hlo hspv hstack F hcsF e hpp st
           · exact execS_ret (KOf G pi sp dep hi) _ wf _ e σ hpure
-          · obtain ⟨g, args, rfl, hg, hargs⟩ := callE_inv _ _ hcall
+          · obtain ⟨g, args, rfl, hg, hargs⟩ := callE5_inv _ _ _ _ _ hcall
             apply execS_retE (KOf G pi sp dep hi) _ wf F (.call g args) _ σ
             intro st _ gs code gs' i a b mem hgen hat hr hsz hnl hci
-            exact exec_callExpr ok F hcsF hpi sp dep hi hlo hspv hstack g args hg hargs st gs code gs' i a b mem
+            exact exec_callExpr ok F hcsF hpi sp dep hi hlo hspv hstack g args hg
+              (argsOK_5 ok hpi sp dep hi hlo hspv hstack F hcsF args hargs) st gs code gs' i a b mem
               hgen hat hr hsz hnl hci
         | assign n e =>
           simp only [okS5, rhs5, Bool.or_eq_true, Bool.and_eq_true] at hok
@@ -563,10 +755,11 @@ theorem all_correct {G : GCtx} (ok : G.OK) : ∀ fuel, StmtSpec G fuel ∧ StmtL
             intro st _
             exact execE_pp ok (ok.pure_ok hpk) hpi sp dep hi hlo hspv hstack F hcsF e hpp st
           · exact execS_assign (KOf G pi sp dep hi) _ wf _ n e σ hpure
-          · obtain ⟨g, args, rfl, hg, hargs⟩ := callE_inv _ _ hcall
+          · obtain ⟨g, args, rfl, hg, hargs⟩ := callE5_inv _ _ _ _ _ hcall
             apply execS_assignE (KOf G pi sp dep hi) _ wf F n (.call g args) _ σ
             intro st _ gs code gs' i a b mem hgen hat hr hsz hnl hci
-            exact exec_callExpr ok F hcsF hpi sp dep hi hlo hspv hstack g args hg hargs st gs code gs' i a b mem
+            exact exec_callExpr ok F hcsF hpi sp dep hi hlo hspv hstack g args hg
+              (argsOK_5 ok hpi sp dep hi hlo hspv hstack F hcsF args hargs) st gs code gs' i a b mem
               hgen hat hr hsz hnl hci
         | ite c t e =>
           simp only [okS5, Bool.and_eq_true] at hok
@@ -599,15 +792,16 @@ theorem all_correct {G : GCtx} (ok : G.OK) : ∀ fuel, StmtSpec G fuel ∧ StmtL
           exact execS_assignSub (KOf G pi sp dep hi) _ wf _ n i e σ hok.1 hok.2
         | call g args =>
           simp only [okS5, Bool.and_eq_true, List.all_eq_true, Bool.or_eq_true, List.contains_iff_mem] at hok
-          rcases hok.1 with hps | hvs
-          · exact execS_callStmt ok (F + 1) hcsF1 hpi sp dep hi hlo hspv hstack g args hps hok.2 σ
+          rcases hok with ⟨hps, hargs⟩ | ⟨hvs, hargs⟩
+          · exact execS_callStmt ok (F + 1) hcsF1 hpi sp dep hi hlo hspv hstack g args hps
+              (argsOK_5 ok hpi sp dep hi hlo hspv hstack (F + 1) hcsF1 args hargs) σ
           · unfold valSys at hvs
             cases hr : G.rho g with
             | none => rw [hr] at hvs; simp at hvs
             | some w =>
               rw [hr] at hvs
               simp only [decide_eq_true_eq] at hvs
-              exact execS_valcall (KOf G pi sp dep hi) _ wf _ g args σ w hr hvs hok.2
+              exact execS_valcall (KOf G pi sp dep hi) _ wf _ g args σ w hr hvs hargs
       · intro pi hpi sp dep hi hlo hspv hstack ss σ hok
         have ihS' := ihS pi hpi sp dep hi hlo hspv hstack
         have ihL' := ihL pi hpi sp dep hi hlo hspv hstack
